@@ -17,6 +17,12 @@ func init() {
 			"(R3) subscribe routing - nothing runs without OnNext; exactly one of {Post to the observe handler, direct call} then exactly one of {Post to the subscribe handler, direct call}, OnNext called once with the evaluated value. Not decided: on which goroutine a Handler runs what it is posted (C12).",
 		Trusted: commonTrusted,
 		Run:     runC11,
+		Relies: []Dep{
+			{Prop: "C17", Rule: "R2", Floor: 8, Why: "the SimpleAPI constructors are the library's own MonadIO producers: nothing may be serialised or sent before Subscribe/Eval"},
+			{Prop: "C12", Rule: "R1", Keys: []string{"HandlerDef/"}, Floor: 2, Why: "ObserveOn/SubscribeOn run the effect and OnNext through a Handler: one consumer goroutine"},
+			{Prop: "C12", Rule: "R2", Keys: []string{"HandlerDef/"}, Floor: 1, Why: "ObserveOn/SubscribeOn run the effect and OnNext through a Handler: each posted function runs once, in order"},
+			{Prop: "C12", Rule: "R3", Keys: []string{"HandlerDef.Post"}, Floor: 1, Why: "ObserveOn/SubscribeOn run the effect and OnNext through a Handler: Post enqueues exactly once"},
+		},
 	})
 }
 
